@@ -5,9 +5,9 @@ from mc.props import _std
 BOUNDS = {
     # exhaustive short generations: every history of depth <= d over sigma1/reopen (REOPEN is an alphabet member, <= 2 per history)
     'quick': [('dfs', 'reopen', ops.CFG_MULTI[:3], 3, 2), ('reopen', [ops.CFG_MULTI[1], ops.CFG_MULTI[3]], 2),
-              ('alpha', 'sigma_ce_reopen', ops.CFG_RR[2:3], 6, 2)],
+              ('alpha', 'sigma_ce_reopen', ops.CFG_RR[2:3], 6, 2), ('big', ['gen2-iso-lim+1'])],
     'thorough': [('dfs', 'reopen', ops.CFG12, 3, 2), ('dfs', 'reopen', ops.CFG_MULTI[:1], 4, 2), ('reopen', ops.CFG12, 2), ('reopen', ops.CFG_MULTI[:1], 3),
-                 ('alpha', 'sigma_ce_reopen', ops.CFG_RR[1:3], 6, 2)],
+                 ('alpha', 'sigma_ce_reopen', ops.CFG_RR[1:3], 6, 2), ('big', _std.BIG_GEN2)],
 }
 
 _std.install(globals(), 'C02', 'model_checking', [master.oracle_roundtrip, master.oracle_live], BOUNDS,
